@@ -1,5 +1,5 @@
 PROP = {
-    "regen_files": ["GenGuards.v"],
+    "regen_files": ["GenGuards.v", "GenDeleg.v"],
     "num": 2,
     "runs": [{"tag": "c02", "bin": "c02"}],
     "mismatch_is_failing": True,
